@@ -9,3 +9,8 @@ package utils
 //@   nopanic
 //@   ensures v < 0 ==> result == -v
 //@   ensures v >= 0 ==> result == v
+
+//@ func MinInt
+//@   props C06 C07
+//@   nopanic
+//@   ensures result <= x && result <= y && (result == x || result == y)
